@@ -280,6 +280,12 @@ lzma_lz_decoder_init(lzma_next_coder *next, const lzma_allocator *allocator,
 	if (coder->dict.size != alloc_size) {
 		lzma_free(coder->dict.buf, allocator);
 
+		// If the allocation below fails, coder->dict.size must not
+		// keep the old value: a later initialization that happens
+		// to need the old size would skip the allocation and
+		// use the NULL buffer.
+		coder->dict.size = 0;
+
 		// The LZ_DICT_EXTRA bytes at the end of the buffer aren't
 		// included in alloc_size. These extra bytes allow
 		// dict_repeat() to read and write more data than requested.
